@@ -10,20 +10,28 @@
 (*   Nodes built edge by edge; for each TLC prints its consistent          *)
 (*   extensions (empty = not extendable).                                  *)
 (***************************************************************************)
-EXTENDS PCLib, Json
+EXTENDS PCLib, Json, IOUtils
 CONSTANTS Nodes, Mode
 VARIABLES E, P, phase, cls
 vars == <<E, P, phase, cls>>
 DAGS == AllDAGs(Nodes)
 
 NoP == [dir |-> {}, und |-> {}]
-Init == E = {} /\ P = NoP /\ phase = "build" /\ cls = {{}}
+\* Mode "pcfile": ground truths are read from a file (sampled larger DAGs, thorough tier); no edge-adding there
+FileDags == IF Mode = "pcfile" THEN JsonDeserialize(IOEnv.INST_FILE) ELSE <<>>
+SeqToSet(s) == {s[i] : i \in 1..Len(s)}
+Init == IF Mode = "pcfile"
+        THEN /\ E \in {SeqToSet(FileDags[k]) : k \in 1..Len(FileDags)}
+             /\ P = NoP /\ phase = "fromfile" /\ cls = {{}}
+        ELSE E = {} /\ P = NoP /\ phase = "build" /\ cls = {{}}
+\* the class is computed in a step (parallel over workers), then printed
+LoadClass == /\ phase = "fromfile" /\ cls' = ClassOf(DAGS, E) /\ phase' = "build" /\ UNCHANGED <<E, P>>
 
 \* ---- mode pc ----------------------------------------------------------------
 AddEdge(u, v) == /\ Mode = "pc" /\ phase = "build"
                  /\ <<u, v>> \notin E /\ ~HasPath(E, v, u)
                  /\ E' = E \cup {<<u, v>>} /\ cls' = ClassOf(DAGS, E \cup {<<u, v>>}) /\ UNCHANGED <<P, phase>>
-StartMeek == /\ Mode = "pc" /\ phase = "build"
+StartMeek == /\ Mode \in {"pc", "pcfile"} /\ phase = "build"
              /\ phase' = "meek" /\ P' = Pattern(E) /\ UNCHANGED <<E, cls>>
 MeekStep(a, b) == /\ phase = "meek" /\ Applicable(P, a, b)
                   /\ P' = Orient(P, a, b) /\ UNCHANGED <<E, phase, cls>>
@@ -34,13 +42,13 @@ AddUnd(u, v) == /\ Mode = "pdag" /\ ~PAdj(P, u, v)
                 /\ P' = [P EXCEPT !.und = P.und \cup {{u, v}}] /\ UNCHANGED <<E, phase, cls>>
 
 Next == \/ \E p \in AllPairs(Nodes) : AddEdge(p[1], p[2]) \/ MeekStep(p[1], p[2]) \/ AddDir(p[1], p[2]) \/ AddUnd(p[1], p[2])
-        \/ StartMeek
+        \/ StartMeek \/ LoadClass
 
 \* ---- lemmas -----------------------------------------------------------------
 Cls == cls
 MeekSound == phase = "meek" => /\ P.dir \subseteq Compelled(Cls, E) /\ PSkel(P) = Skeleton(E)
 MeekComplete == (phase = "meek" /\ \A p \in AllPairs(Nodes) : ~Applicable(P, p[1], p[2])) => P = CPDAGOf(Cls, E)
-CPDAGExtendsToClass == phase = "build" /\ Mode = "pc" => Extensions(DAGS, CPDAGOf(Cls, E)) = Cls
+CPDAGExtendsToClass == phase = "build" /\ Mode \in {"pc", "pcfile"} => Extensions(DAGS, CPDAGOf(Cls, E)) = Cls
 
 \* ---- output -----------------------------------------------------------------
 Pairs == {S \in SUBSET Nodes : Cardinality(S) = 2}
@@ -53,6 +61,6 @@ PcCase ==
                                   ~DConn(Nodes, E, TwoOf(q[1])[1], TwoOf(q[1])[2], q[2])}},
    cpdag |-> cp, class |-> C]
 PdagCase == [kind |-> "pdag", nodes |-> Nodes, pdag |-> P, ext |-> Extensions(DAGS, P)]
-Emit == IF Mode = "pc" THEN (phase = "build" => PrintT(ToJson(PcCase)))
+Emit == IF Mode \in {"pc", "pcfile"} THEN (phase = "build" => PrintT(ToJson(PcCase)))
         ELSE PrintT(ToJson(PdagCase))
 =============================================================================
